@@ -117,6 +117,13 @@ func (w *World) Load() error {
 // EnsureStd makes sure a few std packages are loaded (sync is imported by
 // generated code, not by the sources).
 func (w *World) EnsureStd() error {
+	// a generic interface whose lower-case type parameters are spelled like the names moq
+	// invents for unnamed parameters: the worker generates it between two generations of a
+	// request (whatever it leaves behind in the process must not reach the second one)
+	if err := core.WriteFile(filepath.Join(w.Dir, "poison", "poison.go"),
+		[]byte("package poison\n\ntype Cache[s comparable, v any, n any, b any, f any, err any, t any] interface {\n\tGet(s) (v, n)\n\tPut(b, f, err, t)\n}\n")); err != nil {
+		return err
+	}
 	return core.WriteFile(filepath.Join(w.Dir, "stdanchor", "anchor.go"),
 		[]byte("package stdanchor\n\nimport (\n\t_ \"sync\"\n\t_ \"context\"\n\t_ \"fmt\"\n\t_ \"io\"\n\t_ \"net/http\"\n\t_ \"time\"\n)\n\n"+
 			"// candidate type arguments for instantiating generic mocks\ntype StrS struct{ V int }\n\nfunc (s *StrS) String() string { return \"s\" }\nfunc (s *StrS) Len() int { return s.V }\nfunc (s StrS) Less(o StrS) bool { return s.V < o.V }\n\ntype StrInt int\n\nfunc (s StrInt) String() string { return \"i\" }\n"))
